@@ -17,7 +17,7 @@ PROPERTY = "C04"
 LEVEL = "fault_enumeration"
 RULE = ("one request per scenario against a scripted peer on the virtual clock; scenarios = every fault script over a "
         "16-symbol alphabet up to depth retries+1 (exhaustive) x {udp-rtu, tcp} x keep-alive x (T, R) grid, TCP connect "
-        "outcome scripts, AA55 framing scripts, and random deeper multi-request histories; distinct = distinct "
+        "outcome scripts, AA55 framing scripts, a silent request after a request under every fault script (at once and 0.4 T later), a stale corrupted datagram arriving while idle at 8 arrival phases, random deeper multi-request histories with random arrival phase of every peer send (thorough: the exhaustive part again with sends deferred by 2 / 5 loop iterations); distinct = distinct "
         "(transport, keep-alive, R, outcome, #tx, event-kind trace) tuples")
 ASSUMPTIONS = [
     "AF_UNIX socketpairs stand in for UDP/TCP sockets (synchronous in-kernel delivery); OS errors are injected at the "
